@@ -752,3 +752,8 @@ CONTROLS['C05'] += [
         and len(n.args) > 1 and A.src(n.args[1]) == 'self.input_dataset',
         lambda n: (n.args.__setitem__(1, M.parse_expr('iter(self.input_dataset)')), n)[1]), 'helper-gets-the-iterable'),
 ]
+CONTROLS['C14'] += [
+    C('summary of the prefetch catch path rejects a tuple of types (SB)',
+      expr_replace('core', 'PrefetchDataset.__iter__', 'isinstance(catch_filter_exception, (list, tuple))',
+                   'isinstance(catch_filter_exception, list)'), 'SB', tier='quick'),
+]
